@@ -30,6 +30,8 @@ def pcInv (s : St) : Pc → Prop
       todo.Nodup ∧ (∀ h ∈ todo, h ∉ got)
   | .k2 got => (∀ h ∈ s.pub, h ∈ got) ∧ (∀ h ∈ got, h ∈ s.pub)
   | .k3 got => ∀ h ∈ got, h ∈ s.pub
+  | .cL todo => (∀ k ∈ todo, k ∈ s.reg) ∧ (∀ k ∈ todo, k ∈ s.pub)
+  | .cH h todo => h ∈ s.reg ∧ h ∈ s.pub ∧ (∀ k ∈ todo, k ∈ s.reg) ∧ (∀ k ∈ todo, k ∈ s.pub)
   | _ => True
 
 /-- the id a thread has allocated but not yet published -/
